@@ -70,7 +70,8 @@ def _crossings(draw, degrees, n=(1, 3)):
 def crossing_case(draw, zero_lib='allowed', zero_node='allowed', sparse=False, force_variety=None):
     eq = draw(_equipment(zero=zero_lib, sparse=sparse))
     topo, degrees = draw(roadmgen.star(eq['Roadm'], zero=zero_node, force_variety=force_variety))
-    return {'eq': eq, 'topo': topo, 'degrees': degrees, 'crossings': draw(_crossings(degrees))}
+    return {'eq': eq, 'topo': topo, 'degrees': degrees, 'crossings': draw(_crossings(degrees)),
+            'redesign_on_path': draw(st.booleans())}
 
 
 @st.composite
@@ -165,7 +166,18 @@ def _degree_uids(network, roadm):
 def _design(case):
     from gnpy.tools.worker_utils import designed_network
     equipment, network = netgen.build_network(case['eq'], case['topo'])
-    network, _, _ = designed_network(equipment, network, source='trx R0', destination='trx R1')
+    network, req, ref_req = designed_network(equipment, network, source='trx R0', destination='trx R1')
+    if case.get('redesign_on_path'):
+        # what a power sweep / a per-request redesign does before propagating: design again on the sub-graph of one path
+        # (trx R0 -> trx R1 leaves the ROADM through one degree only); the settings of the other degrees must survive
+        from gnpy.core.network import design_network
+        from gnpy.topology.request import compute_constrained_path
+        path = compute_constrained_path(network, req)
+        if path:
+            design_network(ref_req, network.subgraph(path), equipment, set_connector_losses=False, verbose=False)
+            # ... and a later design of the whole network again (each simulation designs what it is about to cross; the
+            # reference input powers of a ROADM are reset by every design)
+            design_network(ref_req, network, equipment, set_connector_losses=False, verbose=False)
     roadm = next(n for n in network.nodes() if n.uid == 'roadm R0')
     return equipment, network, roadm
 
@@ -187,6 +199,8 @@ def run_crossing(case, ctx, expect_zero=False):
                 return
             raise
         ctx.label('policy-source:' + source, 'node-policy:' + node_k)
+        if case.get('redesign_on_path'):
+            ctx.label('history:redesigned-on-one-path-first')
         if node_k == 'target_pch_out_db' and node_v == 0:
             ctx.label('node-policy:0dBm')
         eg, ing = _degree_uids(network, roadm)
